@@ -60,8 +60,13 @@ try:
     rc0, out0 = build_run("clean")
     res["demo_clean"] = {"rc": rc0, "tail": out0[-400:]}
     rc, out = sh("git -C %s apply %s/patch.diff" % (wt, seed))
+    if rc != 0:
+        # the patch was made against an earlier HEAD (before one of the fix: commits): three-way apply, then keep the rebased diff
+        rc, out = sh("git -C %s apply -3 %s/patch.diff && git -C %s reset -q" % (wt, seed, wt))
+        res["patch_rebased"] = (rc == 0)
     res["patch_applies"] = (rc == 0)
     if rc != 0: res["patch_error"] = out[-500:]
+    rebased_diff = sh("git -C %s diff" % wt)[1] if res["patch_applies"] else None
     rc1, out1 = build_run("patched")
     res["demo_patched"] = {"rc": rc1, "tail": out1[-600:]}
     # the repository's own suite on the patched tree
@@ -89,6 +94,9 @@ for f in os.listdir(seed):
 meta = {}
 try: meta = json.load(open(os.path.join(seed, "meta.json")))
 except Exception as e: meta = {"meta_parse_error": str(e)}
+if res.get("patch_rebased") and rebased_diff:
+    shutil.copy(os.path.join(seed, "patch.diff"), os.path.join(dst, "patch.orig.diff"))
+    open(os.path.join(dst, "patch.diff"), "w").write(rebased_diff)
 meta["verification"] = res
 json.dump(meta, open(os.path.join(dst, "meta.json"), "w"), indent=1)
 print(json.dumps({"name": name, "confirmed": res.get("confirmed"), "detected": res.get("detected"), "suite": res.get("suite"),
